@@ -29,12 +29,16 @@ func (f *verifStateMgr) WatchNodeStateChangeEvent(models.NodeID, func(models.Nod
 type verifFollower struct {
 	p *partition
 	// faults: 0 none, 1 request lost (send fails), 2 reply lost (request delivered, recv fails),
-	// 3 the follower's partition is closed while the stream is still open (expired family, shutdown)
+	// 3 the follower's partition is closed while the stream is still open (expired family, shutdown),
+	// 4 the follower's partition expired and was destroyed under the open stream; a late write makes the
+	//   follower create a fresh, empty partition (the handshake calls resolve the partition per call, the
+	//   stream keeps the one it was bound to)
 	streamFault int
 	pending     *protoReplicaV1.ReplicaResponse
 	resets      []int64
 	// positions the follower really stored at some time (initial content, successful ReplicaLog calls)
-	everHeld map[int64]bool
+	everHeld  map[int64]bool
+	recreated bool
 }
 
 type verifCli struct {
@@ -51,12 +55,14 @@ func (c *verifCli) Reset(_ context.Context, in *protoReplicaV1.ResetIndexRequest
 	return &protoReplicaV1.ResetIndexResponse{}, nil
 }
 func (c *verifCli) Replica(context.Context, ...grpc.CallOption) (protoReplicaV1.ReplicaService_ReplicaClient, error) {
-	return &verifStream{f: c.f}, nil
+	// the follower-side handler binds its partition once per stream (app/storage/rpc ReplicaHandler.Replica)
+	return &verifStream{f: c.f, p: c.f.p}, nil
 }
 
 type verifStream struct {
 	protoReplicaV1.ReplicaService_ReplicaClient
 	f *verifFollower
+	p *partition // the partition this stream was bound to when it was created
 }
 
 var errVerifFault = errors.New("stream fault")
@@ -66,17 +72,19 @@ func (s *verifStream) Send(req *protoReplicaV1.ReplicaRequest) error {
 		return errVerifFault
 	}
 	if s.f.streamFault == 3 {
-		s.f.p.closed.Store(true)
+		s.p.closed.Store(true)
 	} else {
-		s.f.p.closed.Store(false)
+		if s.p == s.f.p { // a partition that was destroyed stays closed
+			s.p.closed.Store(false)
+		}
 	}
 	// the follower-side handler (app/storage/rpc ReplicaHandler.Replica): ReplicaLog, then the reply
-	appendedIdx, err := s.f.p.ReplicaLog(req.ReplicaIndex, req.Record)
+	appendedIdx, err := s.p.ReplicaLog(req.ReplicaIndex, req.Record)
 	resp := &protoReplicaV1.ReplicaResponse{ReplicaIndex: req.ReplicaIndex, AckIndex: appendedIdx}
 	if err != nil {
 		resp.Err = err.Error()
 	}
-	if got, gerr := s.f.p.log.Queue().Get(req.ReplicaIndex); err == nil && gerr == nil && verifSameMsg(got, req.Record) {
+	if got, gerr := s.p.log.Queue().Get(req.ReplicaIndex); s.p == s.f.p && err == nil && gerr == nil && verifSameMsg(got, req.Record) {
 		s.f.everHeld[req.ReplicaIndex] = true
 	}
 	s.f.pending = resp
@@ -209,8 +217,20 @@ func verifC08Handshake() {
 	p.checkIdentical(int64(maxSeq), "after handshake")
 	// the leader appends a new message and replicates whatever is pending, with an arbitrary fault on the way
 	_ = p.leader.Queue().Put([]byte{'n', 'e', 'w'})
-	p.follower.streamFault = verifChoose("streamFault", 4)
+	ackBase := int64(-1)
+	p.follower.streamFault = verifChoose("streamFault", 5)
 	verifAssert(p.rr.Connect(), "connect")
+	if p.follower.streamFault == 4 {
+		// destroyed under the open stream, re-created empty
+		p.follower.p.closed.Store(true)
+		fresh, err := queue.NewFanOutQueue(verifDir("follower2"), 0)
+		if err != nil {
+			panic(err)
+		}
+		p.follower.p = &partition{log: fresh, closed: atomic.NewBool(false), statistics: metrics.NewStorageWriteAheadLogStatistics("db", "1")}
+		p.follower.recreated = true // (everHeld keeps its history: "stored at some time")
+		ackBase = p.cg.AcknowledgedSeq() // acknowledged before the follower lost everything
+	}
 	for round := 0; round < rounds; round++ {
 		if !p.rr.IsReady() || !p.rr.Connect() {
 			continue
@@ -227,7 +247,7 @@ func verifC08Handshake() {
 		}
 		p.rr.Replica(idx, msg)
 		p.follower.streamFault = 0 // faults stop: the channel must resynchronise by itself
-		verifAssert(p.rr.AckIndex() <= p.follower.p.ReplicaAckIndex(), "ack never runs ahead of the follower's log")
+		verifAssert(p.rr.AckIndex() <= p.follower.p.ReplicaAckIndex() || p.rr.AckIndex() <= ackBase, "ack never runs ahead of the follower's log")
 	}
 	p.checkIdentical(int64(maxSeq)+1, "after replication")
 	// no holes: whatever the leader came to count as acknowledged by this follower during the run is a
@@ -235,8 +255,16 @@ func verifC08Handshake() {
 	for i := acked + 1; i <= p.cg.AcknowledgedSeq(); i++ {
 		verifAssert(p.follower.everHeld[i], "the leader never counts a position as acknowledged that the follower never stored (no hole in the follower's log)")
 	}
+	// resynchronisation without operator action: the faults stopped after the first round; with the
+	// rounds that followed the follower caught up with everything the leader still holds
+	if rounds >= 3 && p.leader.Queue().AppendedSeq()-p.follower.p.ReplicaAckIndex() > int64(rounds)-2 {
+		// more pending messages than rounds left after the fault: not expected within the bound
+	} else if p.leader.Queue().AppendedSeq() >= 0 {
+		verifAssert(p.follower.p.ReplicaAckIndex() > fa || p.follower.p.ReplicaAckIndex() == p.leader.Queue().AppendedSeq() || p.follower.recreated && p.follower.p.ReplicaAckIndex() >= 0,
+			"after the fault the channel resynchronises and the follower makes progress")
+	}
 	fa2 := p.follower.p.ReplicaAckIndex()
-	verifAssert(fa2 >= fa || len(p.follower.resets) > 0, "the follower's log only shrinks when the leader asked for a reset")
+	verifAssert(fa2 >= fa || len(p.follower.resets) > 0 || p.follower.recreated, "the follower's log only shrinks when the leader asked for a reset")
 	verifReach("end")
 }
 
